@@ -123,6 +123,7 @@ def check_effects(rep, facts, si, rule, role):
                   'counter updates happen only after the AEAD call succeeded', where(a, s))
     # classify the updates
     inc_calls = {}
+    direct_incs = []
     for s, f, st in W:
         if f == 'overflowed':
             v = a.val_rv(st['rv'], s) if st['k'] == 'assign' else ('unknown', 'call dest')
@@ -138,6 +139,12 @@ def check_effects(rep, facts, si, rule, role):
                 if c[0] == 'call' and c[4] and c[4][3] and len(c[2]) == 1 and field_ref_of_self(c[2][0], 'seq'):
                     okp = True
                     inc_calls[c[4][3]] = c
+            # the increment written out in place: Seq(self.seq.0.checked_add(1)'s Some payload)
+            if not okp and src[0] == 'agg' and src[2] == 'aead::Seq::Seq' and len(src[3]) == 1:
+                pv = src[3][0]
+                if pv[0] == 'field' and pv[1] == '0' and pv[2][0] == 'variant' and pv[2][1] == 'Some' and _is_seq_checked_add(pv[2][2]):
+                    okp = True
+                    direct_incs.append(pv[2][2])
             rep.check(okp, rule, fn, 'seq-update-value', 'self.seq = %s' % pp(v),
                       'self.seq = Some-payload of increment(&self.seq)', where(a, s))
     # the overflowed store sits on the None arm of the same increment call, the seq store on the Some arm
@@ -149,18 +156,21 @@ def check_effects(rep, facts, si, rule, role):
             if t['k'] != 'switch':
                 continue
             d = a.val_op(t['discr'], a.term_point(bi))
-            if d[0] == 'discr' and d[1][0] == 'call' and d[1][4] and d[1][4][3] in inc_calls or \
-               (d[0] == 'discr' and d[1][0] == 'call' and d[1][4] and d[1][4][3] and len(d[1][2]) == 1 and field_ref_of_self(d[1][2][0], 'seq')):
+            is_helper = d[0] == 'discr' and d[1][0] == 'call' and d[1][4] and d[1][4][3] in inc_calls or \
+                (d[0] == 'discr' and d[1][0] == 'call' and d[1][4] and d[1][4][3] and len(d[1][2]) == 1 and field_ref_of_self(d[1][2][0], 'seq'))
+            is_direct = d[0] == 'discr' and _is_seq_checked_add(d[1])
+            if is_helper or is_direct:
                 want = 1 if f == 'seq' else 0    # Option: None = 0, Some = 1
                 tgt = switch_edge(t, want)
                 arm_ok = a.cfg.edge_dominates(bi, tgt, s[0]) and not any(
                     a.cfg.edge_dominates(bi, switch_edge(t, v), s[0]) for v in (0, 1) if v != want and switch_edge(t, v) != tgt)
-                if d[1][4][3]:
+                if is_helper and d[1][4][3]:
                     inc_calls.setdefault(d[1][4][3], d[1])
                 break
         rep.check(arm_ok, rule, fn, 'update-arm:%s' % f, 'store to self.%s at line %s on the %s arm: %s' % (f, a.line_at(s), 'Some' if f == 'seq' else 'None', arm_ok),
                   'seq updated on Some, overflowed latched on None of the increment result', where(a, s))
     si.inc_calls = inc_calls
+    si.direct_incs = direct_incs
     # per return class
     for s, t, cls in si.classes:
         if s is None:
@@ -195,6 +205,14 @@ def check_effects(rep, facts, si, rule, role):
             rep.undecided(rule, fn, 'return-class', pp(t)[:200], 'Ok(..) or Err(..)', where(a, s))
 
 
+def _is_seq_checked_add(c):
+    """u64::checked_add(self.seq.0, 1) on the context's own counter (through self.0 of the wrapper or directly)"""
+    if not (c[0] == 'call' and c[1] == 'core::num::<impl u64>::checked_add' and len(c[2]) == 2 and c[2][1] == ('const', 'u64', 1)):
+        return False
+    b, fs = load_path_fields(c[2][0])
+    return b == ('param', 1) and fs in (['0', 'seq', '0'], ['seq', '0'])
+
+
 def check_increment(rep, facts, key, rule='R04.5'):
     a = get_an(facts, key)
     if a is None:
@@ -212,6 +230,18 @@ def check_increment(rep, facts, key, rule='R04.5'):
             w = some[0][3][0]
             if w[0] == 'agg' and w[2] == 'aead::Seq::Seq' and len(w[3]) == 1:
                 v = w[3][0]
+                if v[0] == 'bin' and v[1] == 'Add' and v[3] == ('const', 'u64', 1):
+                    # `if seq.0 < u64::MAX { Some(Seq(seq.0 + 1)) } else { None }`: the sum is built only under x < MAX, None
+                    # only under x == MAX (decided from the dominating comparisons: no saturation, no wrap)
+                    b, fs = load_path_fields(v[2])
+                    if b == ('param', 1) and fs == ['0']:
+                        from .common import cmp_guard
+                        mx = ('const', 'u64', 2 ** 64 - 1)
+                        ssite = [x[0] for x in rt[1] if x[1] is some[0]][0]
+                        nsite = [x[0] for x in rt[1] if x[1] is none[0]][0]
+                        gs = cmp_guard(a, ssite[0], v[2], mx)
+                        gn = cmp_guard(a, nsite[0], v[2], mx)
+                        ok = gs['guards'] >= 1 and gs['lt'] and not gs['eq'] and not gs['gt'] and gn['guards'] >= 1 and not gn['lt']
                 if v[0] == 'field' and v[1] == '0' and v[2][0] == 'variant' and v[2][1] == 'Some':
                     inner = v[2][2]
                     if inner[0] == 'call' and inner[1] == 'core::num::<impl u64>::checked_add':
@@ -222,7 +252,7 @@ def check_increment(rep, facts, key, rule='R04.5'):
                             # the None alternative is returned exactly when checked_add returned None
                             sw = switch_on(a, lambda d: d[0] == 'discr' and d[1][0] == 'call' and d[1][1] == 'core::num::<impl u64>::checked_add')
                             ok = len(sw) == 1
-    rep.check(ok, rule, key, 'checked-add', pp(rt), 'u64::checked_add(seq.0, 1).map(Seq) (no wrap, no saturation, step 1, full width)', where(a))
+    rep.check(ok, rule, key, 'checked-add', pp(rt), 'u64::checked_add(seq.0, 1).map(Seq), or the same spelled as a guarded seq.0 + 1 (no wrap, no saturation, step 1, full width)', where(a))
 
 
 def who_writes(rep, facts, sites, rule='R04.6'):
@@ -301,7 +331,8 @@ def run(ctx):
     for si in sites:
         check_site(rep, facts, si, 'seal')
         incs.update(getattr(si, 'inc_calls', {}))
-    rep.floor('R04.5', 'increment functions', len(incs), 1)
+    ndirect = sum(len(getattr(si, 'direct_incs', [])) for si in sites)
+    rep.floor('R04.5', 'increment functions (or increments written in place)', len(incs) + ndirect, 1)
     for k in incs:
         check_increment(rep, facts, k)
     open_sites = [SiteInfo(facts, a, bi, t, 'decrypt_in_place_detached') for a, bi, t, c in aead_sites(facts, 'decrypt_in_place_detached')]
